@@ -4,6 +4,10 @@
    a concurrent well-behaved client.
      agree   : the model (Proto.handle_conn on the same bytes) predicts the same sequence
                of (frame kind, code / response) and the same number of enqueued messages;
+               when the client kept its write side open ([eof] = false) and the daemon was
+               still holding the connection at the end of the observation window (last frame
+               OOpen), the model must have stopped because its input ran out at a line read
+               or inside the magic ([model_waits]), not by a decision of its own;
      monitor : the property evaluated on the recording alone (no model): daemon alive,
                bystander unaffected; the generator's command list is walked together with
                the recorded frames against the protocol TABLE (ProtoSpec.in_state /
@@ -13,7 +17,12 @@
                succeed in the subscribed AND the closing state), any other one must get
                its documented error (the non-fatal E_FIN/REQ/TOUCH_FAILED for a message
                not in flight, else a fatal refusal code of its row), the first fatal error
-               is followed by the close and nothing else; the messages that appeared in
+               is followed by the close and nothing else; a command line longer than the
+               connection's read buffer (terminated or not, whatever follows it, EOF or not)
+               is answered by the close alone - no frame, nothing executed, and the daemon
+               does not go on holding the connection waiting for its end; a wrong magic gets
+               E_BAD_PROTOCOL and the close; when everything was answered the connection is
+               closed exactly when the client closed its side; the messages that appeared in
                the daemon are exactly those of the publishes answered OK (a rejected
                PUB/DPUB/MPUB left nothing, an MPUB is all-or-nothing); and the consumed
                channel's /stats afterwards show exactly the effect of the accepted
@@ -28,7 +37,10 @@ Inductive oresp :=
 | OOk | OCloseWait
 | OJson (msgto_ms sample obsize obt_ms : Z) (tls deflate : bool) (level : Z) (snappy : bool)
 | OOther.
-Inductive oframe := OResp (r : oresp) | OErr (code : N) | OClosed.
+(* OClosed: the daemon closed the connection (EOF / reset seen by the client);
+   OOpen: the client did not close its write side and the daemon was still holding the
+   connection when the observation window ended *)
+Inductive oframe := OResp (r : oresp) | OErr (code : N) | OClosed | OOpen.
 
 Inductive case :=
 | Conn (cf : cfg)
@@ -41,8 +53,10 @@ Inductive case :=
        (enq : Z)                              (* sum of topic message_count, after minus before *)
        (alive bystander : bool)
        (intent : option (list (N * Z * bool * Z)))  (* generator's commands: (index in all_cmds, n, within limits, slot), see [icmd] *)
-       (chan : option (Z * Z * Z * Z)).       (* the consumed channel in /stats after the case: messages left (topic +
+       (chan : option (Z * Z * Z * Z))        (* the consumed channel in /stats after the case: messages left (topic +
                                                  channel depth + in flight + deferred), in flight, deferred, requeue_count *)
+       (eof : bool).                          (* the client half-closed after its last byte (false: it kept the connection
+                                                 open and watched whether the daemon closes it) *)
 
 Definition mk_cfg (max_msg max_body max_rdy : Z) (deflate_on snappy_on tls_on tls_required : bool) : cfg :=
   let d := default_cfg max_msg max_body max_rdy in
@@ -124,8 +138,40 @@ Definition oframe_eqb (a b : oframe) : bool :=
   match a, b with
   | OResp x, OResp y => oresp_eqb x y
   | OErr x, OErr y => (x =? y)%N
-  | OClosed, OClosed => true
+  | OClosed, OClosed | OOpen, OOpen => true
   | _, _ => false
+  end.
+
+(* ------------------------------------------------------------------ where the model stopped *)
+(* The model reads a finite byte list: its loop ends at a failed line read, be it the end
+   of the bytes or a full buffer.  [model_waits]: the run ended because the bytes ran out
+   (inside the magic, or at a line read with less than a buffer of pending bytes and no
+   delimiter) - a daemon whose client keeps the connection open is then waiting for more
+   input; in every other case it has closed the connection by its own decision. *)
+Definition starved (bs : bytes) : bool :=
+  (length bs <? buffer_size)%nat && negb (existsb (N.eqb NL) bs).
+Fixpoint last_read (bs : bytes) (evs : list ev) : option bytes :=
+  match evs with
+  | [EvReadFail] => Some bs
+  | EvCmd _ _ _ _ r :: tl => match next_of r with Some (_, b) => last_read b tl | None => None end
+  | _ => None
+  end.
+Definition model_waits (cf : cfg) (orc : oracle) (json : bytes -> jres) (stream : bytes) : bool :=
+  match read_full 4 stream with
+  | None => true
+  | Some (m, rest) =>
+    bytes_eqb m magic_v2 &&
+    match last_read rest (steps cf orc json (length rest) (init_state cf) rest) with
+    | Some b => starved b
+    | None => false
+    end
+  end.
+
+Fixpoint split_last {A} (l : list A) : option (list A * A) :=
+  match l with
+  | [] => None
+  | [x] => Some ([], x)
+  | x :: r => match split_last r with Some (b, y) => Some (x :: b, y) | None => None end
   end.
 
 Definition count_enq (os : list out) : Z :=
@@ -218,26 +264,57 @@ Definition count_cmd (c : cmd) (n slot : Z) (t : tally) : tally :=
   | _ => t
   end.
 
-Fixpoint align (tlsreq : bool) (ndeliv : Z) (k : skind) (t : tally) (intent : list icmd) (frames : list oframe)
+(* pseudo-commands of the generator's list (indices past all_cmds):
+     13  a line longer than the connection's read buffer (no '\n' among the next
+         defaultBufferSize bytes), terminated later or not at all: the daemon must not take
+         it in - the connection is closed without a reply, whatever follows, and without
+         waiting for the end of the line;
+     14  (first entry only) the first four bytes are not a protocol magic: E_BAD_PROTOCOL
+         and the close;
+     15  (first entry only) the client closed its side before sending four bytes: the close *)
+Definition i_too_long : N := 13.
+Definition i_bad_magic : N := 14.
+Definition i_short_magic : N := 15.
+
+(* the longest run of bytes without a '\n' in what the client wrote: a case that claims an
+   over-long line must really contain one *)
+Fixpoint max_run (cur best : Z) (bs : bytes) : Z :=
+  match bs with
+  | [] => Z.max cur best
+  | c :: r => if (c =? NL)%N then max_run 0 (Z.max cur best) r else max_run (cur + 1) best r
+  end.
+Definition has_long_line (stream : bytes) : bool := nsqd_defaultBufferSize <=? max_run 0 0 stream.
+
+Fixpoint align (tlsreq eof long : bool) (ndeliv : Z) (k : skind) (t : tally) (intent : list icmd) (frames : list oframe)
   : option tally :=
   match intent with
-  | [] => match frames with [OClosed] => Some t | _ => None end     (* everything answered, then EOF *)
+  | [] =>
+    (* everything answered: the daemon closes when, and only when, the client has closed its side *)
+    match frames with
+    | [OClosed] => if eof then Some t else None
+    | [OOpen] => if eof then None else Some t
+    | _ => None
+    end
   | (ci, n, valid, slot) :: r =>
+    if (ci =? i_too_long)%N then
+      match frames with [OClosed] => if long then Some t else None | _ => None end
+    else if (12 <? ci)%N then None
+    else
     let c := cmd_at ci in
     match expected tlsreq k ndeliv (t_dead t) c valid slot with
-    | XSilent => align tlsreq ndeliv k (count_cmd c n slot t) r frames
+    | XSilent => align tlsreq eof long ndeliv k (count_cmd c n slot t) r frames
     | XResp =>
       match frames with
       | OResp x :: fr =>
         if resp_ok c x then
           if upgrades x then match fr with [] => Some t | _ => None end
-          else align tlsreq ndeliv (next_kind c k) (count_cmd c n slot t) r fr
+          else align tlsreq eof long ndeliv (next_kind c k) (count_cmd c n slot t) r fr
         else None
       | _ => None
       end
     | XSoft e =>
       match frames with
-      | OErr i :: fr => if (i =? code_idx e)%N then align tlsreq ndeliv k t r fr else None
+      | OErr i :: fr => if (i =? code_idx e)%N then align tlsreq eof long ndeliv k t r fr else None
       | _ => None
       end
     | XFatal cs =>
@@ -248,15 +325,32 @@ Fixpoint align (tlsreq : bool) (ndeliv : Z) (k : skind) (t : tally) (intent : li
     end
   end.
 
+(* the whole connection: the magic first *)
+Definition align_conn (tlsreq eof long : bool) (ndeliv : Z) (intent : list icmd) (frames : list oframe) : option tally :=
+  let t0 := mkTally 0 0 0 0 [] in
+  match intent with
+  | (ci, _, _, _) :: _ =>
+    if (ci =? i_bad_magic)%N then
+      match frames with
+      | [OErr i; OClosed] => if (i =? code_idx E_BAD_PROTOCOL)%N then Some t0 else None
+      | _ => None
+      end
+    else if (ci =? i_short_magic)%N then
+      match frames with [OClosed] => if eof then Some t0 else None | _ => None end
+    else align tlsreq eof long ndeliv SInit t0 intent frames
+  | [] => align tlsreq eof long ndeliv SInit t0 intent frames
+  end.
+
 Definition is_ok_frame (f : oframe) : bool := match f with OResp _ => true | _ => false end.
 Definition n_ok (fs : list oframe) : nat := length (filter is_ok_frame fs).
 
-(* a fatal error is followed by the close and nothing else; the close is the last frame;
-   every code is one the protocol knows *)
+(* a fatal error is followed by the close and nothing else; the close (or, with the client's
+   side still open, the end of the observation) is the last frame; every code is one the
+   protocol knows *)
 Fixpoint shape_ok (fs : list oframe) : bool :=
   match fs with
   | [] => true
-  | OClosed :: r => match r with [] => true | _ => false end
+  | OClosed :: r | OOpen :: r => match r with [] => true | _ => false end
   | OErr i :: r =>
       match code_at i with
       | Some c => if is_fatal c then match r with [OClosed] => true | _ => false end else shape_ok r
@@ -276,15 +370,22 @@ Definition chan_ok (ndeliv : Z) (t : tally) (obs : Z * Z * Z * Z) : bool :=
     && (ndeliv - len (t_dead t) <=? inflight) && (inflight + deferred <=? remaining)
   end.
 
-Definition monitor (cf : cfg) (ndeliv : Z) (frames : list oframe) (enq : Z) (alive bystander : bool)
+(* the last frame: after the client's EOF the daemon must have closed *)
+Definition ends_ok (eof : bool) (frames : list oframe) : bool :=
+  match split_last frames with
+  | Some (_, OOpen) => negb eof
+  | _ => true
+  end.
+
+Definition monitor (cf : cfg) (stream : bytes) (eof : bool) (ndeliv : Z) (frames : list oframe) (enq : Z) (alive bystander : bool)
            (intent : option (list icmd)) (chan : option (Z * Z * Z * Z)) : bool :=
   alive && bystander
-  && shape_ok frames
+  && shape_ok frames && ends_ok eof frames
   && (if (n_ok frames =? 0)%nat then enq =? 0 else 0 <=? enq)
   && match intent with
      | None => true
      | Some l =>
-       match align (c_tls_required cf) ndeliv SInit (mkTally 0 0 0 0 []) l frames with
+       match align_conn (c_tls_required cf) eof (has_long_line stream) ndeliv l frames with
        | Some t =>
            (* the accepted publishes account for every message that appeared in the daemon
               (a rejected PUB/DPUB/MPUB left nothing, an MPUB is all-or-nothing) *)
@@ -296,12 +397,24 @@ Definition monitor (cf : cfg) (ndeliv : Z) (frames : list oframe) (enq : Z) (ali
 
 Definition judge (c : case) : N :=
   match c with
-  | Conn cf stream jsons delivered full frames enq alive bystander intent chan =>
-    let os := handle_conn cf (ledger delivered full) (json_of jsons) stream in
+  | Conn cf stream jsons delivered full frames enq alive bystander intent chan eof =>
+    let orc := ledger delivered full in
+    let os := handle_conn cf orc (json_of jsons) stream in
     let predicted := flat_map proj os in
-    let agree := list_eqb oframe_eqb predicted frames && (count_enq os =? enq) in
-    verdict agree (monitor cf (len delivered) frames enq alive bystander intent chan)
+    let same :=
+      match (if eof then None else split_last frames) with
+      | Some (body, OOpen) =>
+          (* still open: the model, which stops where its bytes end, must have stopped there *)
+          list_eqb oframe_eqb predicted (body ++ [OClosed]) && model_waits cf orc (json_of jsons) stream
+      | _ => list_eqb oframe_eqb predicted frames
+      end in
+    let agree := same && (count_enq os =? enq) in
+    verdict agree (monitor cf stream eof (len delivered) frames enq alive bystander intent chan)
   end.
 
 (* short names for the driver's terms *)
 Definition bad_json : jres := BadJSON.
+
+(* long streams: a run of one repeated byte, and the concatenation of pieces *)
+Definition fill (n c : N) : bytes := repeat c (N.to_nat n).
+Definition cat (l : list bytes) : bytes := concat l.
